@@ -6,7 +6,7 @@ from . import runprog as R
 PROP = "C02"
 CORR = "Corr.C02"
 REQUIRES = ["Gen.Handlers", "Model.Run", "Spec.Run", "Spec.C02"]
-PROOF_FILES = ["Proof/RunCore.v", "Proof/C02.v"]
+PROOF_FILES = ["Proof/RunCore.v", "Proof/RunExtra.v", "Proof/C02.v"]
 MANIFEST = {
     "text": "Coq theorems over all finite test programs (cleanups registered in setUp, test, tearDown and inside "
             "other cleanups to any depth, patch() of existing and missing attributes, useFixture with failing "
